@@ -198,6 +198,16 @@ class ArrayUnionMatcher(CombinationMatcher):
         self._docnum = self._min_id()
         self._read_part()
 
+    def copy(self):
+        # The sub-matchers have been read ahead to the end of the current
+        # part: the copy needs the buffered part as well as their positions
+        m = self.__class__.__new__(self.__class__)
+        m.__dict__.update(self.__dict__)
+        m._submatchers = [subm.copy() for subm in self._submatchers]
+        m._a = array("d", self._a)
+        m._has = array("B", self._has)
+        return m
+
     def _min_id(self):
         active = [subm for subm in self._submatchers if subm.is_active()]
         if active:
